@@ -134,6 +134,7 @@ func pixelErrPPB(t tms20.TileMatrixSet) []int {
 func tmsQuadTrace(args []string) int {
 	fs := flag.NewFlagSet("tms-quad-trace", flag.ExitOnError)
 	outp := fs.String("out", "-", "")
+	deep := fs.Bool("deep", false, "thorough tier: more factors and offsets per level")
 	fs.Parse(args)
 	out := newJSONL(*outp)
 	defer out.close()
@@ -157,7 +158,12 @@ func tmsQuadTrace(args []string) int {
 		}
 		ids := sortedIDs(t)
 		for _, id := range ids {
-			for _, f := range []string{"mw", "mh", "size", "size+1", "tw", "th", "tile", "origin", "origin-y", "corner", "cell", "cell-down", "idgap", "vmw", "drop"} {
+			fields := []string{"mw", "mh", "size", "size+1", "tw", "th", "tile", "origin", "origin-y", "corner", "cell", "cell-down", "idgap", "vmw", "drop"}
+			if *deep {
+				fields = append(fields, "cell*1.02", "cell*0.98", "cell*1.25", "cell*2", "cell*0.5", "origin-x-small", "origin-y-small", "origin-both",
+					"mw-1", "mh+1", "tw+1", "th+1", "size/2")
+			}
+			for _, f := range fields {
 				c := cloneTMS(t)
 				tm := c.TileMatrices[id]
 				switch f {
@@ -192,6 +198,42 @@ func tmsQuadTrace(args []string) int {
 					tm.CellSize *= 1.05
 				case "cell-down":
 					tm.CellSize *= 0.9
+				case "cell*1.02":
+					tm.CellSize *= 1.02
+				case "cell*0.98":
+					tm.CellSize *= 0.98
+				case "cell*1.25":
+					tm.CellSize *= 1.25
+				case "cell*2":
+					tm.CellSize *= 2
+				case "cell*0.5":
+					tm.CellSize *= 0.5
+				case "origin-x-small":
+					tm.PointOfOrigin[0] += 0.001
+				case "origin-y-small":
+					tm.PointOfOrigin[1] += 0.001
+				case "origin-both":
+					tm.PointOfOrigin[0] -= 3
+					tm.PointOfOrigin[1] -= 3
+				case "mw-1":
+					if tm.MatrixWidth > 1 {
+						tm.MatrixWidth--
+					} else {
+						tm.MatrixWidth += 2
+					}
+				case "mh+1":
+					tm.MatrixHeight++
+				case "tw+1":
+					tm.TileWidth++
+				case "th+1":
+					tm.TileHeight++
+				case "size/2":
+					if tm.MatrixWidth > 1 {
+						tm.MatrixWidth /= 2
+						tm.MatrixHeight /= 2
+					} else {
+						tm.MatrixWidth, tm.MatrixHeight = 3, 3
+					}
 				case "vmw":
 					tm.VariableMatrixWidths = []tms20.VariableMatrixWidth{{Coalesce: 2, MinTileRow: 0, MaxTileRow: 0}}
 				}
